@@ -831,6 +831,7 @@ func (e *Engine) builtin(st *State, name string, args []Val, call *ssa.CallCommo
 				t := st.define("mlen", "Int", "(select "+st.heap("ML")+" "+x.T+")")
 				st.assume(sLe("0", t))
 				st.assume(sImp(sEq(x.T, "null"), sEq(t, "0")))
+				e.mapWitness(st, x.T, call.Args[0].Type().Underlying().(*types.Map))
 				return Val{K: KInt, T: t}
 			}
 			if _, ok := call.Args[0].Type().Underlying().(*types.Chan); ok {
@@ -1326,6 +1327,10 @@ func (e *Engine) next(st *State, in *ssa.Next) {
 	st.assume(sImp(sNot(ok), sOr(sEq(m.T, "null"), "(forall ((k "+ks+")) (! (=> "+dom+"k) (select "+it.visited+" k)) :pattern ("+dom+"k))))")))
 	nv := st.define("visited", "(Array "+ks+" Bool)", sIte(ok, "(store "+it.visited+" "+k+" true)", it.visited))
 	it.visited = nv
+	if it.started == "" {
+		it.started = "false"
+	}
+	it.started = st.define("started", "Bool", sOr(it.started, ok))
 	keyV := Val{K: kk, T: k, Ty: tp.At(1).Type()}
 	if kk == KInt {
 		st.assume(rangeAssume(k, mt.Key()))
@@ -1349,6 +1354,15 @@ func (e *Engine) next(st *State, in *ssa.Next) {
 		}
 	}
 	fr.regs[in] = Val{K: KTuple, F: []Val{{K: KBool, T: ok}, keyV, valV}, Ty: tp}
+}
+
+// mapWitness: a map whose length is positive has a key (a fresh witness constant).
+func (e *Engine) mapWitness(st *State, m string, mt *types.Map) {
+	if st.quant > 0 || m == "null" {
+		return
+	}
+	w := st.declare("mwit", e.mapKeySort(mt))
+	st.assume(sImp("(> (select "+st.heap("ML")+" "+m+") 0)", sAnd(sNot(sEq(m, "null")), "(select (select "+st.heap(e.mapDomHeap(mt))+" "+m+") "+w+")")))
 }
 
 func (e *Engine) selectOp(st *State, in *ssa.Select) {
